@@ -1726,9 +1726,13 @@ func (eng *Engine) callWrites(ms *modSet, ne *Exec, fn *ssa.Function, cc *ssa.Ca
 			}
 		}
 		if sp.HasModifies {
-			// explicit locations: over-approximate by the field arrays of the parameter types and the element
-			// arrays of their slice-typed fields (clause expressions are short paths from the parameters)
+			// explicit locations: the arrays named by the clause's own __mod / __modall expressions
 			ms.allocs = true
+			if sp.ModWrapper != nil && eng.modWrapperWrites(ms, ne, sp.ModWrapper) {
+				return
+			}
+			// fall back: over-approximate by the field arrays of the parameter types and the element
+			// arrays of their slice-typed fields
 			for _, p := range callee.Params {
 				switch u := p.Type().Underlying().(type) {
 				case *types.Pointer:
@@ -1757,6 +1761,94 @@ func (eng *Engine) callWrites(ms *modSet, ne *Exec, fn *ssa.Function, cc *ssa.Ca
 		}
 	}
 	ms.merge(eng.mayWriteDepth(callee, depth+1))
+}
+
+// modWrapperWrites: the heap arrays a modifies clause names, read off the __mod / __modall calls of its wrapper (the
+// same case analysis as the evaluation of those intrinsics in callIntrinsic). False if a form is not recognised.
+func (eng *Engine) modWrapperWrites(ms *modSet, ne *Exec, w *ssa.Function) bool {
+	tmp := newModSet()
+	for _, b := range w.Blocks {
+		for _, ins := range b.Instrs {
+			call, ok := ins.(*ssa.Call)
+			if !ok {
+				continue
+			}
+			callee := call.Call.StaticCallee()
+			if callee == nil {
+				return false
+			}
+			base := callee.Name()
+			if o := callee.Origin(); o != nil {
+				base = o.Name()
+			}
+			switch base {
+			case "__mod":
+				arg := call.Call.Args[0]
+				switch ad := arg.(type) {
+				case *ssa.FieldAddr:
+					st := deref(ad.X.Type())
+					ft := st.Underlying().(*types.Struct).Field(ad.Field).Type()
+					if isStructT(ft) || memArrayT(ft) {
+						eng.addTypeWrites(tmp, ne, ft)
+					} else {
+						n, s := ne.fieldArr(st, ad.Field)
+						tmp.heap[n] = s
+					}
+				case *ssa.IndexAddr:
+					var et types.Type
+					switch u := ad.X.Type().Underlying().(type) {
+					case *types.Slice:
+						et = u.Elem()
+					case *types.Pointer:
+						if at, ok := u.Elem().Underlying().(*types.Array); ok {
+							et = at.Elem()
+						}
+					}
+					if et == nil {
+						return false
+					}
+					if isStructT(et) || memArrayT(et) {
+						eng.addTypeWrites(tmp, ne, et)
+					} else {
+						n, s := ne.memArr(et)
+						tmp.heap[n] = s
+					}
+				default:
+					pt, ok := arg.Type().Underlying().(*types.Pointer)
+					if !ok {
+						return false
+					}
+					eng.addTypeWrites(tmp, ne, pt.Elem())
+				}
+			case "__modall":
+				switch u := call.Call.Args[0].Type().Underlying().(type) {
+				case *types.Slice:
+					if isStructT(u.Elem()) || memArrayT(u.Elem()) {
+						eng.addTypeWrites(tmp, ne, u.Elem())
+					} else {
+						n, s := ne.memArr(u.Elem())
+						tmp.heap[n] = s
+					}
+				case *types.Map:
+					dn, vn, ln, ks, vs := ne.mapArrs(u)
+					tmp.heap[dn] = arrSort("Int", arrSort(ks, "Bool"))
+					tmp.heap[vn] = arrSort("Int", arrSort(ks, vs))
+					tmp.heap[ln] = arrSort("Int", "Int")
+				case *types.Pointer:
+					eng.addTypeWrites(tmp, ne, u.Elem())
+				default:
+					return false
+				}
+			default:
+				if strings.HasPrefix(base, "__") {
+					continue
+				}
+				return false
+			}
+		}
+	}
+	ms.merge(tmp)
+	return true
 }
 
 func (eng *Engine) mayWrite(fn *ssa.Function) *modSet { return eng.mayWriteDepth(fn, 0) }
